@@ -147,6 +147,10 @@ pub fn run_one(tier: &str, check: &str, seed: u64, tmp: &Path, log: Option<&mut 
     match tier {
         "t1" => with_runtime(t1::gen_::run_generated(seed, check, tmp, log)),
         "t8" => crate::t8::run_generated(seed),
+        "t3" => {
+            crate::t3::install_metrics();
+            with_runtime(crate::t3::run_generated(seed, tmp))
+        }
         other => Err(SimError::Harness(format!("unknown tier {other}"))),
     }
 }
@@ -169,6 +173,15 @@ pub fn run_list(
                 .map(|e| serde_json::from_value(e.clone()))
                 .collect::<Result<_, _>>()?;
             with_runtime(t1::gen_::run_events(seed, cfg, &evs, tmp, tag, log))
+        }
+        "t3" => {
+            crate::t3::install_metrics();
+            let cfg: crate::t3::Cfg = serde_json::from_value(config.clone())?;
+            let evs: Vec<crate::t3::Ev> = events
+                .iter()
+                .map(|e| serde_json::from_value(e.clone()))
+                .collect::<Result<_, _>>()?;
+            with_runtime(crate::t3::run_events(seed, cfg, &evs, tmp, tag))
         }
         "t8" => {
             let ops: Vec<crate::t8::Op> = events
